@@ -822,4 +822,61 @@ CHECKS["C03"].update({
              "printer; why the unrestricted round trip is 'modulo members'), R7 (print_ast raises RecursionError on deeply nested documents the parser accepts; "
              "a divergence of the recursive implementation from the total model). Repaired: R1, R2, R3, R5, R6."),
     "technique": "Lean 4 proof (string encoders, block-string layout, whole-document print/parse round trip at text level for every indent) + exact-text printer correspondence + round-trip oracle",
+# ---------------------------------------------------------------------------------------------------------------
+# C11 as built after the deepening rounds (replaces the texts above; obligation names are appended by manifest_gen.py).
+# ---------------------------------------------------------------------------------------------------------------
+CHECKS["C11"].update({
+    "text": ("Lean model of build_schema (Sdl.lean: _collect_definitions, ASTTypeBuilder.build_* / extend_* with both caches as by-name lookups, "
+             "additional_types as pre-loaded cache entries, default values through value_from_ast incl. the re-evaluation after extension, "
+             "_deprecation_reason, circular-reference guard, roots from the schema block / default names / extend schema, _build_type_map closure, "
+             "ignore_extensions) and of the PUBLIC extend_schema(schema, doc, strict) (SdlExtend.lean: _collect_extensions strict and lax, new "
+             "definitions built then extended, roots kept). Specification Spec/SdlSpec.lean: Declared doc (definitions, then every extension block "
+             "merged into its target in document order, defaults coerced over the merged definitions), SdlValid. Headline theorems, all full on the "
+             "by-name model: build_exact_spec / build_exact_valid (a document satisfying the rules of the specification - SdlValid + kind rules of "
+             "eager references, which are derived from C13's ValidSchema in build_exact_valid, + root rules - and the residue BaseDefaults / "
+             "SelfDefaults / noThunkCycle builds, and the schema is exactly Declared doc; residue_necessary: three witnesses show each residue "
+             "premise cannot be dropped, findings S8 and S1b), build_exact_final (same from SdlOK; noEagerCycleBase and rootsOk derived), "
+             "build_perm_final / build_perm_spec (validity of ONE document suffices, only the order of the extension blocks of each target is kept; "
+             "ext_order_matters shows that is necessary), build_rejects / no_other_branch (every rejection, any flags, any supplied types, is "
+             "SDLError / ExtensionError / SchemaError or the RecursionError of S1b; build_internal_of_thunkCycle says when), build_ignoreExtensions "
+             "(ignore_extensions=True is the build of the document without its extend blocks, every document, every additional_types), "
+             "extend_exact_strict / extend_exact_lax / extend_exact_lax_general (extend_schema(build(base), B) for ANY document B the collection "
+             "accepts returns exactly the content base ++ B declares; lax_is_strict_on_kept: strict=False is strict=True on the kept part), "
+             "extend_eq_build, extend_perm, extend_rejects, strict_refines, collect_strict_exact, extendSchema_is_public; refutations: "
+             "build_exact_refuted (the unrestricted statement, finding S8), extend_roots_not_rederived (extend_schema never re-derives default "
+             "roots: the side condition of extend_exact_* is necessary). SUPPLIED TYPES (SdlAdditional.lean buildA = what the driver answers; "
+             "buildA_nil: without supplied types it IS build): same-name supplied types (last wins), transitive registry closure, a supplied type "
+             "shadowing a specified one is refused once referenced, extension blocks of supplied enums / input objects seen by default literals; "
+             "DeclaredWith + build_exact_additional_noext (documents without extension blocks, ANY supplied types: the schema is exactly the declared "
+             "content - a definition whose name is supplied is the supplied type as it is), supplied_overrides, registered_only_if_reached, "
+             "extend_supplied_exact (extension blocks are applied to a supplied type exactly, every kind), buildA_rejects; "
+             "build_exact_additional_refuted / supplied_extension_dropped: with extension blocks the statement is FALSE today (finding C11/A1, fix "
+             "proposed). IN-PROGRESS DEFAULTS: touches_reach / thunkNeeds_reach / selfDefaults_of_noSelfReach / noThunkCycle_of_noSelfReach / "
+             "build_exact_acyclic_inputs / build_exact_defaults_off_cycles (the `hide` approximation and the S1b thunk cycles need an input object "
+             "type WITH A DEFAULTED FIELD that reaches itself: for documents whose defaults sit off the cycles of input objects - recursive input "
+             "objects allowed - the residue of build_exact_spec is BaseDefaults alone, a premise about the document only); mutual_default_not_completed / "
+             "h4A_not_selfDefaults / mutual_required_accepted (hunt4 C11-1: the model predicts the stale default and the accepted invalid document); "
+             "SdlInProgress.lean buildP = the extension pass with the builder's real _extended_cache / _in_progress bookkeeping (executable "
+             "reference, no theorem). SCHEMA DIRECTIVES: used_definitions_are_new / two_phase_directives_once (which parts' directives extend_schema "
+             "applies: never those of a definition the schema already has). Tied by the correspondence of canonical schema dumps (walk through public "
+             "attributes) and rejection classes on generated SDL (six kinds, wrappers, defaults of every input kind, descriptions, deprecations, "
+             "directives, schema blocks, extensions split arbitrarily over extend blocks, ALL definition orders of small documents, both flags, "
+             "additional_types incl. enums with internal values and types referenced from extension blocks only), 38 labelled single-defect documents "
+             "with validation ENABLED, 36 named extension documents x strict/lax for the public extend_schema, 39 named additional_types probes, "
+             "20 named in-progress probes + a targeted stream of recursive input objects (and every batch document) against buildP, schema-directive "
+             "applications counted per element for build_schema and the two-phase build, and the direct oracle: dump of the "
+             "built schema == the declared content known by construction (reference coercion in Python), library error class on every labelled defect."),
+    "note": ("Trusted: Lean kernel; generators; gen/sdl.py (ref_coerce, declared, doc_json). Lazy type thunks are by-name references (stack overflows "
+             "from eager recursion are seen by the correspondence and the S1b probe only). Schema.validate() is not part of the model (C13): documents "
+             "rejected by validation only are compared with validation disabled; the kind rules enter build_exact_valid through C13's ValidSchema. "
+             "additional_types: exactness proved for documents without extension blocks; with extension blocks per supplied type "
+             "(extend_supplied_exact) - the schema-level statement is refuted by finding C11/A1 until the proposed fix is committed; the public "
+             "extend_schema(..., additional_types=) is not modelled. The approximate model (one hidden type) differs from the code on about a fifth of the "
+             "documents of the targeted stream (recursive input objects + defaults + extensions; 188 of 1000 measured); buildP agrees on all of them but carries no theorem: the "
+             "theorems hold under SelfDefaults, which the one-hidden-type model can satisfy where the code keeps a stale value (probe finding-H4-defaulted-backref): the statement that is safe to read against the code is build_exact_defaults_off_cycles. Only exercised by the correspondence / oracle: the "
+             "APPLICATION of schema_directives (SchemaDirective visitors), Schema objects assembled in Python passed to extend_schema, nodes lists. no_other_branch_partial (vacuous) and "
+             "build_exact_partial are kept for name stability and superseded by no_other_branch / build_exact_final. Known findings S8, S1b, S10, "
+             "C11/2, C11/3, C11/7, C11/A1 (new), C11/H4-1 (hunt4)."),
+    "technique": ("Lean 4 proof over the builder model (exactness from the specification's rules, permutation, rejection classes, public "
+                  "extend_schema strict/lax) + schema-dump correspondence + declared-content and labelled-defect oracles"),
 })
